@@ -46,7 +46,9 @@ def lift(v):
     if isinstance(v, bool): return z3.BoolVal(v)
     if isinstance(v, int): return z3.IntVal(v)
     if isinstance(v, float):
-        return z3.RealVal(repr(v)) if v == v and abs(v) != float('inf') else (_ for _ in ()).throw(Unsupported("nan/inf const"))
+        if v != v or abs(v) == float('inf'): raise Unsupported("nan/inf const")
+        from fractions import Fraction
+        fr = Fraction(repr(v)); return z3.RealVal(f"{fr.numerator}/{fr.denominator}") if fr.denominator != 1 else z3.RealVal(fr.numerator)
     return v
 def toreal(t):
     t = lift(t)
@@ -289,6 +291,20 @@ def _gather(func, args, kwargs):
             k = C().intcache[key]
         out[idx] = p[idx[:-1] + (k,)]
     return Sym.make(out, a.dtype)
+
+@handles('unsqueeze')
+def _unsq(func, args, kwargs): return Sym.make(np.expand_dims(P(args[0]), args[1]), args[0].dtype)
+@handles('view', 'reshape')
+def _view(func, args, kwargs):
+    shape = args[1:] if not isinstance(args[1], (tuple, list, torch.Size)) else tuple(args[1])
+    return Sym.make(P(args[0]).reshape(tuple(shape)), args[0].dtype)
+@handles('expand')
+def _expand(func, args, kwargs):
+    shape = args[1:] if not isinstance(args[1], (tuple, list, torch.Size)) else tuple(args[1])
+    p = P(args[0]); shape = tuple(p.shape[i - (len(shape) - p.ndim)] if s == -1 else s for i, s in enumerate(shape))
+    return Sym.make(np.broadcast_to(p, shape), args[0].dtype)
+@handles('abs')
+def _abs(func, args, kwargs): return Sym.make(uf(lambda x: z3.If(toreal(x) >= 0, toreal(x), -toreal(x)))(P(args[0])), args[0].dtype)
 
 class Mode(TorchFunctionMode):
     def __torch_function__(self, func, types, args=(), kwargs=None):
